@@ -1,0 +1,13 @@
+//go:build verif
+
+package ean
+
+// VerifEncoderTable exposes encoderTable for the /verif translator:
+// rune -> {LeftOdd, LeftEven, Right, CheckSum}.
+func VerifEncoderTable() map[rune][4][]bool {
+	res := make(map[rune][4][]bool, len(encoderTable))
+	for r, e := range encoderTable {
+		res[r] = [4][]bool{e.LeftOdd, e.LeftEven, e.Right, e.CheckSum}
+	}
+	return res
+}
